@@ -47,6 +47,7 @@ func cmdGrbFaults(args []string) {
 		"writer_faults_tried": 0, "writer_faults_reported": 0, "events": 0, "runs": 0}
 	cnt := func(k string, d int) { stats[k] = stats[k].(int) + d }
 	storeNil := []J{}
+	cutDiffers := []J{}
 	id := 0
 	for i := 0; i < *n; i++ {
 		prog := g.Program()
@@ -70,15 +71,24 @@ func cmdGrbFaults(args []string) {
 		cnt("writes", cwr.calls)
 		// ---- truncation at every offset of this stream
 		data := ref.Bytes()
+		refKb, err := ast.NewKnowledgeLibrary().LoadKnowledgeBaseFromReader(bytes.NewReader(data), true)
+		must(err)
+		refCat := refKb.MakeCatalog()
 		for cut := 0; cut < size; cut++ {
 			if *step > 1 && cut%*step != 0 && cut < size-64 {
 				continue
 			}
 			cnt("cuts_tried", 1)
 			lib2 := ast.NewKnowledgeLibrary()
-			if _, err := lib2.LoadKnowledgeBaseFromReader(bytes.NewReader(data[:cut]), true); err != nil {
+			cutKb, err := lib2.LoadKnowledgeBaseFromReader(bytes.NewReader(data[:cut]), true)
+			if err != nil {
 				cnt("cuts_rejected", 1)
 				continue
+			}
+			// a prefix that loads must at least be the knowledge base the complete stream holds (node for node:
+			// the stream carries the node ids), otherwise something was lost silently
+			if !refCat.Equals(cutKb.MakeCatalog()) || !cutKb.MakeCatalog().Equals(refCat) {
+				cutDiffers = append(cutDiffers, J{"grl": prog.GRL(), "removed": removed, "cut": cut, "of": size, "stream": data})
 			}
 			// the prefix loaded: it must behave like the stored rule set (the stream travels with the case for replay)
 			cnt("cuts_loaded", 1)
@@ -119,6 +129,11 @@ func cmdGrbFaults(args []string) {
 		stats["store_nil"] = storeNil[:5]
 	}
 	stats["store_nil_count"] = len(storeNil)
+	stats["cut_differs_count"] = len(cutDiffers)
+	if len(cutDiffers) > 2 {
+		cutDiffers = cutDiffers[:2]
+	}
+	stats["cut_differs"] = cutDiffers
 	sb, _ := json.Marshal(stats)
 	fmt.Println("STATS", string(sb))
 }
@@ -153,4 +168,27 @@ func cmdGrbWriterReplay(args []string) {
 		}
 	}
 	fmt.Printf("STATS {\"store_nil_count\": %d}\n", bad)
+}
+
+// cmdGrbCutReplay re-checks one recorded truncation: the prefix of the recorded stream must be refused or be
+// the same knowledge base as the complete stream.
+func cmdGrbCutReplay(args []string) {
+	fs := flag.NewFlagSet("grb-cut-replay", flag.ExitOnError)
+	in := fs.String("in", "cut.json", "recorded truncation {stream, cut}")
+	fs.Parse(args)
+	b, err := os.ReadFile(*in)
+	must(err)
+	var rec struct {
+		Stream []byte `json:"stream"`
+		Cut    int    `json:"cut"`
+	}
+	must(json.Unmarshal(b, &rec))
+	refKb, err := ast.NewKnowledgeLibrary().LoadKnowledgeBaseFromReader(bytes.NewReader(rec.Stream), true)
+	must(err)
+	bad := 0
+	cutKb, err := ast.NewKnowledgeLibrary().LoadKnowledgeBaseFromReader(bytes.NewReader(rec.Stream[:rec.Cut]), true)
+	if err == nil && (!refKb.MakeCatalog().Equals(cutKb.MakeCatalog()) || !cutKb.MakeCatalog().Equals(refKb.MakeCatalog())) {
+		bad = 1
+	}
+	fmt.Printf("STATS {\"cut_differs_count\": %d}\n", bad)
 }
